@@ -180,7 +180,7 @@ fn run_op(root: &Path, o: &Value) -> (Value, Value) {
     let cbytes = o.get("c").filter(|c| c.is_object()).map(content_bytes);
     // the operation as the trace shows it: contents in canonical form
     let mut shown = o.clone();
-    if let Some(b) = &cbytes {
+    if let (Some(b), true) = (&cbytes, op != "copy_lim") {
         shown["c"] = content(b);
     }
     let nothing = |()| json!([]);
@@ -239,6 +239,21 @@ fn run_op(root: &Path, o: &Value) -> (Value, Value) {
             |v| content(&v),
         ),
         "copy" => wrap(guarded(|| fs::copy_file(&p, q.as_ref().unwrap()).map(|_f| ())), nothing),
+        "copy_lim" => {
+            // RLIMIT_FSIZE makes the kernel cut copy_file_range short: the copy loop has to iterate
+            let lim = o["c"]["n"].as_u64().unwrap();
+            unsafe {
+                libc::signal(libc::SIGXFSZ, libc::SIG_IGN);
+                let rl = libc::rlimit { rlim_cur: lim, rlim_max: libc::RLIM_INFINITY };
+                assert_eq!(0, libc::setrlimit(libc::RLIMIT_FSIZE, &rl));
+            }
+            let r = wrap(guarded(|| fs::copy_file(&p, q.as_ref().unwrap()).map(|_f| ())), nothing);
+            unsafe {
+                let rl = libc::rlimit { rlim_cur: libc::RLIM_INFINITY, rlim_max: libc::RLIM_INFINITY };
+                assert_eq!(0, libc::setrlimit(libc::RLIMIT_FSIZE, &rl));
+            }
+            r
+        }
         "create_dir" => wrap(guarded(|| fs::create_dir(&p)), nothing),
         "create_dir_all" => wrap(guarded(|| fs::create_dir_all(&p)), nothing),
         "remove_dir_all" => wrap(guarded(|| fs::remove_dir_all(&p)), nothing),
